@@ -191,6 +191,60 @@ def check(ctx):
     from pfhedge.instruments import BrownianStock, HestonStock, EuropeanOption, EuropeanBinaryOption, AmericanBinaryOption, LookbackOption
     from pfhedge.nn import Hedger, BlackScholes, WhalleyWilmott
     torch.manual_seed(ctx.seed % (2 ** 31))
+    HEDGE_DELTA_FN = {"EuropeanOption": "european_delta", "EuropeanBinaryOption": "european_binary_delta", "AmericanBinaryOption": "american_binary_delta"}
+
+    def hedge_is_limiting_delta(case, mk, opt_name, call_, k_, hedge, stock):
+        """zero-volatility paths (BrownianStock(sigma=0): the spot is constant) away from the strike: the Black-Scholes hedge IS the delta, i.e.
+        its limiting value (call 1 / 0, put -1 / 0, binaries 0); the Whalley-Wilmott band has zero width there (gamma = 0), so a finite
+        Whalley-Wilmott hedge is the same number.  Every time step, calls and puts."""
+        fn = HEDGE_DELTA_FN.get(opt_name)
+        if fn is None:
+            return
+        sp0 = stock.spot[:, 0].tolist()
+        if not bool((stock.spot == stock.spot[:, :1]).all()):
+            raise InternalError("zero-volatility market: the simulated path is not constant")
+        kq = float(torch.tensor(k_, dtype=stock.spot.dtype))
+        for p_ in range(len(sp0)):
+            if sp0[p_] == kq:
+                continue          # on the strike: the at-the-money limit, see the on-strike predicate
+            s_ = math.log(sp0[p_] / kq)
+            exp = certain_payoff(fn, s_, kq, s_, call_)
+            if exp is None:
+                continue
+            ctx.stats[f"hedger:limiting-delta:{mk}:{'call' if call_ else 'put'}"] += 1
+            if not bool(((hedge[p_, 0] - exp).abs() <= 1e-6).all()):
+                ctx.fail("the hedge of a BlackScholes / WhalleyWilmott hedger on a zero-volatility path away from the strike is not the limiting delta "
+                         "(call: 1 in / 0 out of the money, put: -1 / 0, binaries: 0)", case | {"path": p_},
+                         key=f"hedger:{mk}:{opt_name}:{'call' if call_ else 'put'}:zero-volatility-limiting-delta",
+                         detail={"hedge[path, 0, :]": hedge[p_, 0].tolist(), "expected": exp, "spot": sp0[p_], "strike": k_, "log_moneyness": s_})
+                return
+
+    # deterministic corpus: calls AND puts, in and out of the money, with and without transaction cost, on zero-volatility paths (a Whalley-
+    # Wilmott hedger of a binary option only without cost: with a cost its band is NaN there, the recorded finding on the binary gammas)
+    for optn, call_, k_, cost, mk in [(o_, c_, k__, co_, m_) for o_ in ("EuropeanOption", "EuropeanBinaryOption", "AmericanBinaryOption")
+                                      for c_ in ((True, False) if o_ != "AmericanBinaryOption" else (True,)) for k__ in (0.9, 1.1)
+                                      for co_ in (0.0, 1e-3) for m_ in ("bs", "ww")]:
+        if mk == "ww" and cost > 0 and optn != "EuropeanOption":
+            continue
+        opt = {"EuropeanOption": EuropeanOption, "EuropeanBinaryOption": EuropeanBinaryOption, "AmericanBinaryOption": AmericanBinaryOption}[optn]
+        stock = BrownianStock(cost=cost, sigma=0.0, dtype=g.choice([torch.float32, torch.float64]))
+        d = opt(stock, strike=k_, maturity=g.choice([3 / 250, 5 / 250]), **({"call": call_} if optn != "AmericanBinaryOption" else {}))
+        model = BlackScholes(d) if mk == "bs" else WhalleyWilmott(d)
+        h = Hedger(model, model.inputs())
+        d.simulate(n_paths=g.choice([1, 3]))
+        case = {"underlier": "brownian", "option": optn, "model": mk, "cost": cost, "sigma": 0.0, "strike": k_, "call": call_,
+                "dtype": str(stock.spot.dtype).replace("torch.", ""), "corpus": "zero-volatility"}
+        ctx.case(case | {"n": int(stock.spot.size(0))}, True, tag="hedger_zero_volatility")
+        ctx.traces += 1
+        with torch.no_grad():
+            st1, hedge, _ = call_impl(h.compute_hedge, d)
+            st2, plv, _ = call_impl(h.compute_pl, d)
+        if st1 != "ok" or st2 != "ok":
+            ctx.fail("BlackScholes / WhalleyWilmott hedger raised on zero-volatility paths", case, key=f"hedger:{mk}:{optn}:error", detail=[str(hedge)[:100], str(plv)[:100]])
+        elif not (bool(hedge.isfinite().all()) and bool(plv.isfinite().all())):
+            ctx.fail("BlackScholes / WhalleyWilmott hedger produced a non-finite hedge or P&L", case, key=f"hedger:{mk}:{optn}:nonfinite")
+        else:
+            hedge_is_limiting_delta(case, mk, optn, call_, k_, hedge, stock)
     for _ in range(40 if ctx.tier == "quick" else 300):
         und = g.choice(["brownian", "heston"])
         cost = g.choice([0.0, 1e-3])
@@ -244,6 +298,8 @@ def check(ctx):
                     ctx.fail("the Black-Scholes hedge of a European option on a zero-volatility path resting exactly on the strike is not the limiting "
                              "at-the-money delta +-1/2", case, key="hedger:bs:EuropeanOption:on-strike:zero-volatility-delta",
                              detail={"hedge[0, 0, :]": hedge[0, 0].tolist(), "expected": lim, "spot[0, 0]": float(stock.spot[0, 0])})
+            if st1 == "ok" and st2 == "ok" and und == "brownian" and sig == 0.0 and bool(hedge.isfinite().all()):
+                hedge_is_limiting_delta(case, mk, opt.__name__, call_, k_, hedge, stock)
     # ---------------- the lookback delta is the autograd derivative of the price: evaluate it at the edge as the closed-form ones
     import pfhedge.nn.functional as fnl_
     for _ in range(40 if ctx.tier == "quick" else 400):
@@ -263,6 +319,7 @@ def check(ctx):
     # ---------------- the Whalley-Wilmott module itself at the edge of the domain (the hedger never evaluates it at time to
     # maturity 0, a user may): the previous hedge clamped to delta -/+ width must not be NaN where the band is 0 or infinite
     # corpus first: witnesses of the repaired zero-cost defect (width = (0 * inf)^(1/3) = nan at the money)
+    OPT_FN_ = {"EuropeanOption": "european", "EuropeanBinaryOption": "european_binary", "AmericanBinaryOption": "american_binary"}
     ww_corpus = [(0.0, 1.0, 0.0, 0.1, 0.0, 0.5), (0.0, 1.0, 0.0, 0.0, 0.2, 0.25), (0.0, 2.0, 0.0, 0.0, 0.0, 1.0)]
     for it_ in range(len(ww_corpus) + (40 if ctx.tier == "quick" else 500)):
         cost = g.choice([0.0, 1e-3, 1e-2])
@@ -284,6 +341,67 @@ def check(ctx):
         elif bool(out.isnan().any()):
             ctx.fail("WhalleyWilmott module returns NaN at zero time to maturity / zero volatility", case, key="ww_module:edge:nan",
                      detail={"output": out.tolist(), "width": ww.width(inp[..., :-1]).tolist()})
+        elif (t_ == 0.0 or v_ == 0.0) and s_ != 0.0:
+            # away from the strike the band has zero width (gamma = 0): the hedge is the limiting delta whatever the previous hedge was
+            exp = certain_payoff("european_delta", s_, k, s_, bool(d.call))
+            if not (tuple(out.shape) == (1, 1) and abs(float(out[0, 0]) - exp) <= 1e-9):
+                ctx.fail("WhalleyWilmott module at zero time to maturity / zero volatility away from the strike does not return the limiting delta",
+                         case, key=f"ww_module:edge:{'call' if d.call else 'put'}:limiting-delta", detail={"output": out.tolist(), "expected": exp})
+    # deterministic corpus: calls and PUTS (delta in [-1, 0]) and binaries, in / out of the money, every kind of edge, previous hedges on both sides
+    # of the limit; (N, 4) inputs in float32 and float64; the European rows also go to the model of the module forward (op "ww_module")
+    ww_reqs, ww_meta = [], []
+    for optn, call_, cost, dtn in [(o_, c_, co_, dt_) for o_ in ("EuropeanOption", "EuropeanBinaryOption", "AmericanBinaryOption")
+                                   for c_ in ((True, False) if o_ != "AmericanBinaryOption" else (True,))
+                                   for co_ in ((0.0, 1e-3) if o_ == "EuropeanOption" else (0.0,)) for dt_ in ("float64", "float32")]:
+        dtp = getattr(torch, dtn)
+        k = g.choice([0.9, 1.0, 2.0])
+        a_ = g.choice([1.0, 0.5])
+        opt = {"EuropeanOption": EuropeanOption, "EuropeanBinaryOption": EuropeanBinaryOption, "AmericanBinaryOption": AmericanBinaryOption}[optn]
+        d = opt(BrownianStock(cost=cost, dtype=dtp), strike=k, **({"call": call_} if optn != "AmericanBinaryOption" else {}))
+        ww = WhalleyWilmott(d, a=a_)
+        names = list(ww.inputs())
+        rows = []
+        for s_ in (-0.1, 0.2, -1e-3):
+            for t_, v_ in ((0.0, 0.2), (0.1, 0.0), (0.0, 0.0)):
+                prev = g.choice([0.0, -0.3, 0.7, 1.0, -1.0, -0.7])
+                row = {"log_moneyness": s_, "max_log_moneyness": max(s_, 0.0) if g.chance(0.5) else s_, "time_to_maturity": t_, "volatility": v_, "prev_hedge": prev}
+                rows.append([row[nm] for nm in names])
+        inp = torch.tensor(rows, dtype=dtp)
+        case = {"ww_module": True, "corpus": True, "option": optn, "call": call_, "cost": cost, "strike": k, "a": a_, "dtype": dtn, "inputs": names, "rows": rows}
+        ctx.case(case, True, tag="ww_edge_corpus")
+        ctx.traces += 1
+        st, out, _ = call_impl(ww, inp)
+        if st != "ok" or tuple(out.shape) != (len(rows), 1):
+            ctx.fail("WhalleyWilmott module raised at the edge of the domain", case, key="ww_module:edge:error", detail=str(out)[:200])
+            continue
+        vals = out.detach().reshape(-1).tolist()
+        for r_, val in zip(rows, vals):
+            s_ = float(torch.tensor(r_[0], dtype=dtp))
+            m_ = float(torch.tensor(r_[names.index("max_log_moneyness")], dtype=dtp)) if "max_log_moneyness" in names else s_
+            exp = certain_payoff(HEDGE_DELTA_FN[optn], s_, k, m_, call_)
+            if math.isnan(val):
+                ctx.fail("WhalleyWilmott module returns NaN at zero time to maturity / zero volatility", case | {"row": r_}, key="ww_module:edge:nan")
+                break
+            if exp is not None and not abs(val - exp) <= 1e-6:
+                ctx.fail("WhalleyWilmott module at zero time to maturity / zero volatility away from the strike does not return the limiting delta "
+                         "(call 1 / 0, put -1 / 0, binaries 0)", case | {"row": r_},
+                         key=f"ww_module:edge:{OPT_FN_[optn]}:{'call' if call_ else 'put'}:limiting-delta", detail={"output": val, "expected": exp})
+                break
+        if optn == "EuropeanOption" and dtn == "float64":
+            ww_reqs.append({"op": "ww_module", "what": "forward", "kind": "european", "call": call_, "strike": float_bits(k), "cost": float_bits(cost),
+                            "a": float_bits(a_), "rows": enc_flt(rows)})
+            ww_meta.append((case, vals))
+    try:
+        wouts = ctx.driver(ww_reqs)
+    except DriverBroken as e:
+        ctx.ties_broken.append({"kind": "driver", "detail": str(e)[:1500]})
+        wouts = []
+    for (case, vals), mo in zip(ww_meta, wouts):
+        for r_, val, mm in zip(case["rows"], vals, mo):
+            mv = float_of_bits(mm["ok"]) if "ok" in mm else None
+            if mv is None or kind(mv) != kind(val) or (kind(val) == "fin" and abs(mv - val) > 1e-9):
+                ctx.disagree("ww_module_edge", case | {"row": r_}, val, mm)
+                break
     # ---------------- the module layer (BS* modules, BlackScholes(derivative)): the same statements through the objects a user and
     # the hedgers call.  (a) modules built with a strike / call flag, evaluated at explicit t = 0 / v = 0 inputs; (b) modules built
     # from a simulated or injected derivative, evaluated on the derivative's own state: every (path, step) with time to maturity 0
@@ -630,6 +748,143 @@ def check(ctx):
                 must_reject("Hedger.compute_pl", lambda: hh.compute_pl(d), case, prefix)
             for meth in ("price", "delta", "gamma"):
                 must_reject(f"BlackScholes(derivative).{meth}()", lambda: getattr(bsm, meth)(), case, f"bs_module:{okind}:state")
+    # ---------------- PARTIAL argument lists to a module bound to a simulated derivative: every argument a caller passes is the one that is
+    # used, every argument left out is acquired from the derivative (log-moneyness, running maximum, time to maturity of the grid, volatility of
+    # the underlier).  The caller puts the module at the edge with the arguments he passes: time_to_maturity = zeros ("if it expired now") and
+    # / or volatility = zeros on the simulated spots, an explicit log-moneyness on a zero-volatility market, or a NEGATIVE time to maturity /
+    # volatility while the rest is acquired.  Predicates of the property, element by element over the (N, T) grid: price = the certain payoff,
+    # delta = its limit, nothing is NaN; a negative argument is rejected by price / delta / gamma / vega / theta.  One element of each case
+    # goes to the model of the functionals (op "bs") with the arguments the call stands for.
+    part_reqs, part_meta = [], []
+    EDGES = ["t0", "v0", "both", "state_v0", "neg_t", "neg_v"]
+    part_corpus = [(o_, b_, e_, ("volatility",) if e_ in ("v0", "neg_v") else ("time_to_maturity", "volatility") if e_ == "both"
+                    else ("log_moneyness",) if e_ == "state_v0" else ("time_to_maturity",))
+                   for o_ in sorted(OPT_FN) for b_ in ("BlackScholes", "from_derivative") for e_ in EDGES]
+    for it_ in range(len(part_corpus) + (40 if ctx.tier == "quick" else 500)):
+        option = g.choice(sorted(OPT_FN))
+        built = g.choice(["BlackScholes", "from_derivative"])
+        edge = g.choice(EDGES)
+        given = None
+        if it_ < len(part_corpus):
+            option, built, edge, given = part_corpus[it_]
+        okind = OPT_FN[option]
+        pd = option in ("AmericanBinaryOption", "LookbackOption")
+        call = True if pd else g.chance(0.5)
+        k = g.choice([0.9, 1.0, 1.1, 0.5, 2.0])
+        sig = 0.0 if edge == "state_v0" else g.choice([0.2, 0.5, 0.0])
+        u = pin.BrownianStock(sigma=sig, dtype=torch.float64)
+        d = getattr(pin, option)(u, call=call, strike=k, maturity=g.choice([3 / 250, 10 / 250]))
+        tseed = g.randint(0, 2 ** 31 - 1)
+        torch.manual_seed(tseed)
+        d.simulate(n_paths=g.choice([1, 3, 8]), init_state=(g.choice([1.0, 0.8, 1.25, 1.0]),))
+        mod = pnn.BlackScholes(d) if built == "BlackScholes" else getattr(pnn, "BS" + option).from_derivative(d)
+        names = list(mod.inputs())
+        if given is None:
+            # a proper, non-empty subset of the arguments that contains the one(s) put at the edge
+            must = {"t0": ["time_to_maturity"], "v0": ["volatility"], "both": ["time_to_maturity", "volatility"], "state_v0": [],
+                    "neg_t": ["time_to_maturity"], "neg_v": ["volatility"]}[edge]
+            free = [nm for nm in names if nm not in must and not (edge == "state_v0" and nm == "volatility")]
+            extra = [nm for nm in free if g.chance(0.4)]
+            if not must and not extra:
+                extra = [g.choice(free)]
+            given = tuple(nm for nm in names if nm in must or nm in extra)
+            if len(given) == len(names):
+                given = tuple(nm for nm in given if nm in must) or given[:1]
+        spot = u.spot.detach().clone()
+        N_, T_n = spot.shape
+        acq = {"log_moneyness": d.log_moneyness().detach().clone(), "time_to_maturity": d.time_to_maturity().detach().clone(),
+               "volatility": u.volatility.detach().clone()}
+        if pd:
+            acq["max_log_moneyness"] = d.max_log_moneyness().detach().clone()
+        used = dict(acq)
+        if "time_to_maturity" in given:
+            used["time_to_maturity"] = torch.zeros_like(spot) if edge != "neg_t" else torch.full_like(spot, g.choice([0.0, 0.1]))
+        if "volatility" in given:
+            used["volatility"] = torch.zeros_like(spot) if edge in ("v0", "both") else torch.full_like(spot, g.choice([0.2, 1.0]))
+            if edge == "state_v0":
+                raise InternalError("partial-argument scenario: the volatility must be acquired from the zero-volatility market")
+        if "log_moneyness" in given:
+            used["log_moneyness"] = torch.tensor([[g.choice([-0.3, -0.03, 0.04, 0.5, 0.0]) for _j in range(T_n)] for _i in range(N_)], dtype=torch.float64)
+            if pd and "max_log_moneyness" not in given:
+                used["log_moneyness"] = torch.minimum(used["log_moneyness"], acq["max_log_moneyness"])     # the spot never exceeds its running maximum
+        if "max_log_moneyness" in given:
+            used["max_log_moneyness"] = torch.maximum(used["log_moneyness"], torch.zeros_like(spot)) + g.choice([0.0, 0.0, 0.1]) if g.chance(0.7) \
+                else used["log_moneyness"].clone()
+        bad_at = None
+        if edge in ("neg_t", "neg_v"):
+            nm = "time_to_maturity" if edge == "neg_t" else "volatility"
+            bad_at = (g.randint(0, N_ - 1), g.randint(0, T_n - 1))
+            if g.chance(0.5):
+                used[nm] = torch.full_like(spot, -g.choice([1.0, 0.1]))           # negative everywhere
+            else:
+                used[nm][bad_at] = -g.choice([1e-9, 0.1, 1.0, 5e-324])           # one negative entry
+        kwargs = {nm: used[nm].clone() for nm in given}
+        positional = g.chance(0.3) and list(given) == names[:len(given)]
+        case = {"partial": True, "edge": edge, "option": option, "built": built, "call": call, "strike": k, "sigma": sig, "given": list(given),
+                "acquired": [nm for nm in names if nm not in given], "positional": positional, "torch_seed": tseed, "spot": spot[:4].tolist(),
+                "given_values": {nm: kwargs[nm][:4].tolist() for nm in given}}
+        ctx.case(case, True, tag="bs_module_partial")
+        ctx.stats[f"partial:{edge}:{option}"] += 1
+        ctx.stats["partial:given=" + ",".join(given)] += 1
+        ctx.traces += 1
+        invoke = (lambda meth: getattr(mod, meth)(*[kwargs[nm].clone() for nm in given])) if positional else \
+            (lambda meth: getattr(mod, meth)(**{nm: kwargs[nm].clone() for nm in given}))
+        U = {nm: used[nm].tolist() for nm in used}
+        pick = bad_at or (g.randint(0, N_ - 1), g.randint(0, T_n - 1))
+        elem = lambda p_, j: [U["log_moneyness"][p_][j], U["time_to_maturity"][p_][j], U["volatility"][p_][j], k,
+                              U["max_log_moneyness"][p_][j] if pd else U["log_moneyness"][p_][j]]
+        if edge in ("neg_t", "neg_v"):
+            for meth in GREEKS:
+                fst = must_reject(f"module.{meth}(partial arguments)", lambda: invoke(meth), case, f"bs_module:{okind}")
+                fn = f"{okind}_{meth}"
+                if fn in MODEL_BS_FNS:
+                    part_reqs.append({"op": "bs", "fn": fn, "call": call, "elems": [enc_flt(elem(*pick))]})
+                    part_meta.append((case | {"method": meth, "element": list(pick)}, fst[0], fst[1]))
+            continue
+        for what in ("price", "delta"):
+            fn = f"{okind}_{what}"
+            st, out, _ = call_impl(invoke, what, watch=[("derivative", d)])
+            if st != "ok" or tuple(out.shape) != (N_, T_n):
+                ctx.fail(f"{what}() with a partial argument list at the edge raised or has the wrong shape", case | {"method": what},
+                         key=f"bs_module:{fn}:partial:edge-error", detail=str(out)[:200])
+                continue
+            vals = out.detach().tolist()
+            if fn in MODEL_BS_FNS:
+                part_reqs.append({"op": "bs", "fn": fn, "call": call, "elems": [enc_flt(elem(*pick))]})
+                part_meta.append((case | {"method": what, "element": list(pick)}, "ok", vals[pick[0]][pick[1]]))
+            done = set()
+            for p_ in range(N_):
+                for j in range(T_n):
+                    s_, t_, v_, _k, m_ = elem(p_, j)
+                    if not (t_ == 0.0 or v_ == 0.0):
+                        continue
+                    at = case | {"method": what, "path": p_, "step": j, "s": s_, "m": m_, "t": t_, "v": v_}
+                    val = vals[p_][j]
+                    if "nan" not in done and math.isnan(val):
+                        done.add("nan")
+                        ctx.fail(f"{what}() with a partial argument list is NaN at zero time to maturity / zero volatility", at, key=nan_key(fn), detail="nan")
+                    exp = certain_payoff(fn, s_, k, m_, call, resting=(sig == 0.0 and "log_moneyness" not in given))
+                    if "val" not in done and exp is not None and not math.isnan(val) and not (abs(val - exp) <= 1e-9 * max(1.0, abs(exp))):
+                        done.add("val")
+                        ctx.fail(f"{what}() of a module bound to a derivative, called with a partial argument list (passed: {', '.join(given)}; the rest acquired "
+                                 "from the derivative), differs from the certain payoff / limiting delta at the zero time to maturity / zero volatility the "
+                                 "arguments stand for", at, key=f"bs_module:{fn}:partial:value-at-expiry", detail={"module": val, "expected": exp})
+    try:
+        pouts = ctx.driver(part_reqs)
+    except DriverBroken as e:
+        ctx.ties_broken.append({"kind": "driver", "detail": str(e)[:1500]})
+        pouts = []
+    for (case, st, got), mo in zip(part_meta, pouts):
+        mm = mo[0]
+        if st != "ok":
+            if mm.get("err") != got:
+                ctx.disagree("bs_partial", case, (st, got), mm)
+            continue
+        if hasattr(got, "detach"):
+            got = float(got.detach().reshape(-1)[0])       # a number came back where the model rejects (already a failure above)
+        mv = float_of_bits(mm["ok"]) if "ok" in mm else None
+        if mv is None or kind(mv) != kind(got) or (kind(got) == "fin" and abs(mv - got) > 1e-9 * max(1.0, abs(got))):
+            ctx.disagree("bs_partial", case, got, mm)
     try:
         nouts = ctx.driver(neg_reqs)
     except DriverBroken as e:
